@@ -324,7 +324,29 @@ int main(int argc, char **argv)
         fprintf(stderr, "pool size %zu != 40\n", P.size());
         return 2;
     }
-    const long long n = P.size();
+    const long long n = P.size(); // the ordered-list enumeration below uses the first 40 only
+    // ---- subset lattice: every sum (and every product) of >= 2 of the symbols a..e.  Lists of FOUR overlapping sums are what
+    //      match_common_args needs before a stale argument index can matter (fold {a,b} out of one sum, then "find" {a,c} in
+    //      it); added after seeded change C37 escaped the lists of <= 3 from the 40-expression pool
+    std::vector<int> LS, LP; // indices into P of the lattice sums / products
+    {
+        vec_basic sy = {symbol("a"), symbol("b"), symbol("c"), symbol("d"), symbol("e")};
+        for (int mask = 1; mask < 32; mask++) {
+            if (__builtin_popcount(mask) < 2)
+                continue;
+            vec_basic t;
+            std::string nm;
+            for (int k = 0; k < 5; k++)
+                if (mask & (1 << k)) {
+                    t.push_back(sy[k]);
+                    nm += "abcde"[k];
+                }
+            LS.push_back(P.size());
+            put("L+:" + nm, add(t));
+            LP.push_back(P.size());
+            put("L*:" + nm, mul(t));
+        }
+    }
     std::vector<std::string> cn = {"lists", "lists_with_replacements", "replacements_total", "lists_backsubstitution_exact",
                                    "mismatches_value_compared", "mismatches_value_undecided", "cse_threw"};
     Run &R = run();
@@ -357,9 +379,34 @@ int main(int argc, char **argv)
     cs.body = [&](long long i, Ctx &c) { check_list(decode(i), c); };
     run_cases(cs);
     printf("[C37] E5: pool of %lld expressions, all ordered lists of length <= %d: %lld lists\n", n, maxlen, total);
+    long long lattice_lists = 0;
+    if (!past_deadline()) {
+        // every 4-subset of the 26 lattice sums (resp. products), in increasing and in decreasing order
+        std::vector<std::vector<int>> L4;
+        for (const std::vector<int> *src : {&LS, &LP}) {
+            const int m = src->size();
+            for (int i = 0; i < m; i++)
+                for (int j = i + 1; j < m; j++)
+                    for (int k = j + 1; k < m; k++)
+                        for (int l = k + 1; l < m; l++) {
+                            L4.push_back({(*src)[i], (*src)[j], (*src)[k], (*src)[l]});
+                            L4.push_back({(*src)[l], (*src)[k], (*src)[j], (*src)[i]});
+                        }
+        }
+        lattice_lists = L4.size();
+        CaseSet c4;
+        c4.name = "lattice4";
+        c4.n = L4.size();
+        c4.counter_names = cn;
+        c4.desc = [&](long long i) { return list_desc(L4[i]); };
+        c4.crash_sig = [&](long long, const std::string &oc) { return "cse:" + oc; };
+        c4.body = [&](long long i, Ctx &c) { check_list(L4[i], c); };
+        run_cases(c4);
+        total += lattice_lists;
+    }
     R.states = total;
     R.transitions = R.evaluations;
-    R.bound_completed = "all ordered lists of <= " + std::to_string(maxlen) + " expressions from the 40-expression pool (" + std::to_string(total) + " lists)";
+    R.bound_completed = "all ordered lists of <= " + std::to_string(maxlen) + " expressions from the 40-expression pool; every 4-subset (2 orders) of the 26 sums and of the 26 products of >= 2 symbols out of {a,b,c,d,e} (" + std::to_string(lattice_lists) + " lists); " + std::to_string(total) + " lists in all";
     R.rule = "E5: pool = shared sub-sums/sub-products (x+y, x+y+z, x+y+w, ...), negated terms, negative powers, functions over shared "
              "arguments, private-name collisions (symbols x0,x1; user FunctionSymbols add/mul/pow). For every list: cse() on the real library; "
              "replacements substituted back last->first by an own structural substitution must give the same structural key and eq() for every "
